@@ -155,8 +155,9 @@ AEHandle(s, m) ==
       s4       == IF Len(new) = 0 THEN [s3 EXCEPT !.log = logD]
                   ELSE [ApplyCfgEntries(s3, new, 1) EXCEPT !.log = logN,
                           !.llog = <<AEIdx(new[Len(new)]), new[Len(new)][2]>>]
-      doCommit == m.commit > 0 /\ m.commit > s4.commit
-      cidx     == Min(m.commit, LastIndex(s4))
+      \* only entries up to the last one checked against the leader by THIS request may be committed
+      cidx     == Min(m.commit, Min(LastIndex(s4), m.prev + Len(m.entries)))
+      doCommit == cidx > s4.commit
       s5       == IF ~doCommit THEN s4
                   ELSE LET a == [s4 EXCEPT !.commit = cidx]
                            b == IF a.cli <= cidx THEN [a EXCEPT !.cc = a.cl, !.cci = a.cli] ELSE a
